@@ -65,6 +65,10 @@ def wallet_history(job):
     import numpy as _numpy
     _random.seed(seed)
     _numpy.random.seed(seed % 2 ** 32)
+    # the service layer orders equal-priority providers with random.random() at every call, and the number of calls depends on
+    # cache expiry (wall-clock time): it gets a generator of its own, so that the wallet's draws do not depend on timing
+    import bitcoinlib.services.services as _services
+    _services.random = random.Random(seed)
     scheme, wt = kind
     rng = random.Random(seed)
     d = tempfile.mkdtemp(prefix='w_', dir=os.environ['BCL_DATA_DIR'])
@@ -111,6 +115,7 @@ def wallet_history(job):
     events, desc = [], []
     reports = []        # outputs ever reported to the wallet: [txid, n, value, key_id, address]
     stored = []         # txids of stored (sent) transactions
+    notes = []          # observations outside the listed properties
     sent_objs = {}      # txid -> (the WalletTransaction object that was pushed, its projection)
     unsent = []         # WalletTransaction objects created but not broadcast
     replace = []        # broadcast transactions signalling replace-by-fee, to be replaced
@@ -191,7 +196,7 @@ def wallet_history(job):
         tainted = False
         rbf = rng.random() < 0.3 or force[0] in ('spend_one', 'spend_one_replace')
         q = {'fee': fee if isinstance(fee, int) else -1, 'minconf': minconf, 'inkeys': inkeys, 'sweep': kind_ == 'sweep', 'explicit': explicit,
-             'above': -1, 'acct': acct,
+             'above': -1, 'acct': acct, 'named': isinstance(fee, str),
              'feemin': net.fee_min if net.fee_min < 2000000 else 0, 'feemax': net.fee_max if net.fee_max < 2000000 else 0}
         t = None
         err = None
@@ -314,7 +319,7 @@ def wallet_history(job):
             t, recips = unsent.pop()
             kw, want = bump_args(t)
             # an input added by the bump is selected with bumpfee's own default (min_confirms=1), not with the request's
-            q2 = dict(q, fee=want, feemin=0, feemax=0, explicit=[], inkeys=[], above=int(t.fee), minconf=min(q['minconf'], 1))
+            q2 = dict(q, fee=want, feemin=0, feemax=0, explicit=[], inkeys=[], above=int(t.fee), minconf=min(q['minconf'], 1), named=False)
             ev = {'op': 'tx', 'q': q2, 'created': False, 'stored': False, 'tnum': 0, 'kind': 'bumpfee', 'x': {'ins': [], 'outs': [], 'fee': 0, 'vsize': 0}}
             try:
                 t.bumpfee(**kw)
@@ -327,7 +332,7 @@ def wallet_history(job):
         while imports:              # the unsent transaction comes back (signed elsewhere) and is imported, then sent
             t, recips = imports.pop()
             route = rng.choice(['raw', 'object', 'dict'])
-            q2 = dict(q, fee=-1, feemin=0, feemax=0, explicit=[[txnum(table, i.prev_txid.hex()), i.output_n_int] for i in t.inputs], minconf=0)
+            q2 = dict(q, fee=-1, feemin=0, feemax=0, explicit=[[txnum(table, i.prev_txid.hex()), i.output_n_int] for i in t.inputs], minconf=0, named=False)
             ev = {'op': 'tx', 'q': q2, 'created': False, 'stored': False, 'tnum': 0, 'kind': 'import_' + route,
                   'x': {'ins': [], 'outs': [], 'fee': 0, 'vsize': 0}}
             try:
@@ -358,8 +363,18 @@ def wallet_history(job):
             t, recips = replace.pop()
             kw, want = bump_args(t)
             old_txid, old_tnum = t.txid, txnum(table, t.txid)
-            q2 = dict(q, fee=want, feemin=0, feemax=0, explicit=[], inkeys=[], above=int(t.fee), minconf=min(q['minconf'], 1))
+            q2 = dict(q, fee=want, feemin=0, feemax=0, explicit=[], inkeys=[], above=int(t.fee), minconf=min(q['minconf'], 1), named=False)
             err = None
+            if rng.random() < 0.3:
+                # probe outside the listed properties: the same bump on the transaction as the wallet reloads it (not broadcast,
+                # nothing is written): is the replacement signed?
+                try:
+                    t2 = w.transaction(old_txid)
+                    t2.bumpfee(**kw)
+                    if t2.txid != old_txid and not t2.verify():
+                        notes.append('bumpfee(%s) on the transaction as reloaded with Wallet.transaction(): the replacement does not verify' % kw)
+                except (WalletError, TransactionError):
+                    pass
             try:
                 t.bumpfee(broadcast=True, **kw)
             except (WalletError, TransactionError) as e:
@@ -417,6 +432,11 @@ def wallet_history(job):
     force = [None]
     last_key = [None]
     for step in range(nops):
+        # the library draws from the process-wide generators (provider order at every service call - whose number depends on
+        # cache expiry, i.e. on wall-clock time -, number and size of random change outputs): one fixed state per step makes a
+        # history replay the same way whatever the machine load
+        _random.seed(seed * 1000 + step)
+        _numpy.random.seed((seed * 1000 + step) % 2 ** 32)
         r = rng.random()
         forced = plan[step] if step < len(plan) else None
         if forced in ('key', 'key_a0', 'key_a1'):
@@ -631,7 +651,7 @@ def wallet_history(job):
         reload_problems.append('reload raised %r' % e)
     for ev in events:
         ev.pop('raw', None)
-    return {'seed': seed, 'kind': kind, 'events': events, 'desc': desc, 'reload': reload_problems, 'setup_error': None}
+    return {'seed': seed, 'kind': kind, 'events': events, 'desc': desc, 'reload': reload_problems, 'setup_error': None, 'notes': notes}
 
 
 def collect(nhist, nops=(6, 14)):
